@@ -17,7 +17,7 @@ BUDGET = {"quick": 2500, "thorough": 50000}
 MIN_NONTRIVIAL = {"quick": 200, "thorough": 2000}
 RULE = (
     "histories: 1-5 kernel bodies (1-3 integer add/sub/mul or float addf/subf/mulf operations over 2-3 data inputs with seeded operand "
-    "routing, every input used; in a tenth of the histories kernels may contain operations whose result nobody reads) are converted by convert_generic_body_to_phs and merged one after the other into one abstract "
+    "routing; in a seventh of the histories kernels may ignore one of their inputs, in a tenth of the histories kernels may contain operations whose result nobody reads) are converted by convert_generic_body_to_phs and merged one after the other into one abstract "
     "PE by append_to_abstract_graph; after every merge every kernel merged so far is decoded again (decode_abstract_graph) and the abstract PE "
     "is evaluated under the decoded switch values by an independent PE interpreter on an exhaustive small grid plus seeded data points and "
     "compared with direct evaluation of the kernel; the number of decoded values must equal get_true_switches(). A history machine without "
@@ -35,7 +35,7 @@ def _f32(x):
 FOPS = {"addf": lambda x, y: _f32(x + y), "subf": lambda x, y: _f32(x - y), "mulf": lambda x, y: _f32(x * y)}
 
 
-def gen_kernel(rng, ops, nin, dead=False):
+def gen_kernel(rng, ops, nin, dead=False, partial=False):
     ins = [f"%a{i}" for i in range(nin)]
     for _ in range(200):
         n = rng.randint(1, 3)
@@ -48,8 +48,8 @@ def gen_kernel(rng, ops, nin, dead=False):
             body.append([op, x, y, f"%v{k}"])
             vals.append(f"%v{k}")
             used |= {x, y}
-        if not set(ins) <= used:
-            continue
+        if not set(ins) <= used and not partial:
+            continue  # (partial: a kernel may ignore one of its inputs)
         if not dead and any(not any(f"%v{k}" in (b[1], b[2]) for b in body[k + 1 :]) for k in range(n - 1)):
             continue  # (dead: operations whose result nobody reads are allowed, they may even be the only reader of an input)
         return body
@@ -63,9 +63,13 @@ def gen_case(rng, tier):
         ops = ops[:2]
     nin = rng.choice([2, 2, 3])
     dead = rng.random() < 0.2  # kernels may contain operations whose result is not used
-    kernels = [gen_kernel(rng, ops, nin, dead and rng.random() < 0.5) for _ in range(rng.randint(1, 5))]
+    partial = rng.random() < 0.15  # kernels may ignore one of their inputs
+    kernels = [gen_kernel(rng, ops, nin, dead and rng.random() < 0.5, partial and rng.random() < 0.5) for _ in range(rng.randint(1, 5))]
     pts = [[rng.randrange(1, 1000) for _ in range(nin)] for _ in range(6)]
-    return {"float": flt, "nin": nin, "kernels": kernels, "points": pts}
+    case = {"float": flt, "nin": nin, "kernels": kernels, "points": pts}
+    if partial:
+        case["unused_inputs"] = True
+    return case
 
 
 def kernel_eval(body, data, table):
@@ -148,7 +152,7 @@ def execute(case):
     nin, flt = case["nin"], case["float"]
     for k in case["kernels"]:
         used = {x for b in k for x in (b[1], b[2])}
-        if not {f"%a{i}" for i in range(nin)} <= used:
+        if not {f"%a{i}" for i in range(nin)} <= used and not case.get("unused_inputs"):
             out["status"] = "rejected"
             out["rejected"] = "workload:kernel-with-unused-input"
             return out
